@@ -234,7 +234,14 @@ func c07Boundaries(c *fw.Case, typ byte, ns string) {
 	base := histProto(true)
 	h := &histCtx{r: r, proto: base, code: uint64(18 + r.Intn(2)), keyType: kt, hasIETF: true}
 	withNonce := typ != 'c' && r.Bool()
+	nonASCII := r.Bool()
 	s := c07Step(h, typ, "valid", func(h *histCtx, s *opStep) {
+		if nonASCII && typ != 'd' {
+			// multi-byte characters: every size limit counts bytes of the canonical form, not characters
+			s.Spec.Patches = append(s.Spec.Patches, gen.PJSON(map[string]interface{}{"op": "add", "path": "/note", "value": "zażółć gęślą jaźń €😀" + fmt.Sprint(r.Intn(1000))}),
+				gen.PAddServices(map[string]interface{}{"id": "svc-u", "type": "LinkedDomains", "serviceEndpoint": "https://example.com/straße/" + fmt.Sprint(r.Intn(100))}))
+			s.Facts.Patches = s.Spec.Patches
+		}
 		if typ != 'c' {
 			s.Spec.Signer = s.Spec.Signer // keep
 			if withNonce {
